@@ -556,6 +556,13 @@ fn helper_case(f: &[&str], out: &mut Vec<String>) {
             None => out.push("none".into()),
             Some(v) => out.push(format!("{v}")),
         },
+        // tconst: the size constants the RustCrypto traits advertise (OutputSize, KeySize, BlockSize)
+        "tconst" => {
+            use blake3::traits::digest::{self, common};
+            out.push(format!("{}", <blake3::Hasher as digest::OutputSizeUser>::output_size()));
+            out.push(format!("{}", <blake3::Hasher as common::KeySizeUser>::key_size()));
+            out.push(format!("{}", <blake3::Hasher as common::BlockSizeUser>::block_size()));
+        }
         // dkre <material> <ctx> <ctx> ...: derive_key / new_derive_key called repeatedly with ONE reused String buffer
         // (same address, often same length, different contents): every result must depend on the context VALUE only
         "dkre" => {
@@ -649,7 +656,7 @@ fn run_case(line: &str) -> String {
                 }
             }
         }
-        "lsl" | "msl" | "tks" | "dkre" => helper_case(&toks, &mut out),
+        "lsl" | "msl" | "tks" | "dkre" | "tconst" => helper_case(&toks, &mut out),
         "kcip" | "kxof" | "khm" | "khmg" | "kxm" => kernel::kernel_case(&toks, &mut out),
         "THR" => out.push(kernel::thr_case(&toks, run_case)),
         "ref" => {
